@@ -6,6 +6,7 @@ pub mod common;
 pub mod c13;
 pub mod c14;
 pub mod c15;
+pub mod c16;
 pub mod gen_tracks;
 pub mod transport;
 pub mod conn;
